@@ -2,7 +2,7 @@
    given to the real Go code and what it returned; the model is evaluated on
    the same inputs and must agree. *)
 From Coq Require Import List NArith Bool.
-From LV Require Import Wire.Model.
+From LV Require Import Wire.Model Wire.MsgModel Gen.GenWire.
 Import ListNotations.
 Local Open Scope N_scope.
 
@@ -55,9 +55,64 @@ Inductive case :=
 (* lnwire.ReadMessage on b: ok => (type, fields) and WriteMessage of the result *)
 | CMsg (b : bytes) (ok : bool) (t : N) (fields : list fval) (reenc : bytes)
 (* lnwire.WriteMessage of a generated value *)
-| CWrite (t : N) (fields : list fval) (ok : bool) (out : bytes).
+| CWrite (t : N) (fields : list fval) (ok : bool) (out : bytes)
+(* lnwire.ReadMessage on b for a TLV-carrying message type (Gen.GenWire.gen_tlvmsgs):
+   ok => type, fixed ++ conditional field values, the ExtraData field of the decoded
+   struct, and WriteMessage of the result *)
+| CTMsg (b : bytes) (ok : bool) (t : N) (fields : list fval) (extra : bytes) (reenc : bytes)
+        (pts : list bytes).
+(* pts: the 33-byte windows of b that are compressed secp256k1 points, computed
+   by props/c10.py independently of the Go code (evaluating secp_on_curve below
+   inside Coq costs ~2 s per point); the model's ParsePubKey oracle for this
+   case is membership in pts. *)
 
-Definition all_on_curve (_ : bytes) : bool := true.
+(* ---- btcec.ParsePubKey on 33 bytes: format byte 02/03, x < p, x^3+7 a square mod p ---- *)
+Definition secp_p : N :=
+  115792089237316195423570985008687907853269984665640564039457584007908834671663.
+
+Fixpoint pow_mod_pos (b : N) (e : positive) (m : N) : N :=
+  match e with
+  | xH => b mod m
+  | xO e' => let r := pow_mod_pos b e' m in (r * r) mod m
+  | xI e' => let r := pow_mod_pos b e' m in ((r * r) mod m * b) mod m
+  end.
+
+Definition secp_on_curve (b : bytes) : bool :=
+  match b with
+  | f :: xs =>
+    ((f =? 2) || (f =? 3)) && Nat.eqb (length xs) 32 &&
+    (let x := be_dec xs in
+     (x <? secp_p) &&
+     (let c := (x * x mod secp_p * x + 7) mod secp_p in
+      (c =? 0) ||
+      (match (secp_p - 1) / 2 with
+       | Npos e => pow_mod_pos c e secp_p =? 1
+       | N0 => false
+       end)))
+  | [] => false
+  end.
+
+(* generated layouts + the custom-message range (Custom.Encode/Decode use the
+   buffer directly, which the translator does not express; first custom type) *)
+Definition exec_layouts : msg_table := gen_layouts ++ [(32768, [FRest])].
+
+Definition table_oc (pts : list bytes) (b : bytes) : bool := existsb (bytes_eqb b) pts.
+
+(* the ExtraData field of the struct Decode fills *)
+Definition tm_extra (oc : bytes -> bool) (M : tlvmsg) (body : bytes) (v : tvalue) : bytes :=
+  match tm_mode M with
+  | Repack =>
+    match dec_rest oc (tm_pre M) body with
+    | Some (vs, r1) =>
+      match decode_cond oc M vs r1 with Some (_, r2) => r2 | None => [] end
+    | None => []
+    end
+  | Merge =>
+    match v with
+    | (_, _, rs) =>
+      encode_stream (filter (fun r => negb (rec_known (tm_known M) r) && (fst r <? 65536)) rs)
+    end
+  end.
 
 Definition check (c : case) : list N :=
   match c with
@@ -83,19 +138,33 @@ Definition check (c : case) : list N :=
     | Err e => if code =? err_code e then [] else [4]
     end
   | CMsg b ok t fields reenc =>
-    match read_message all_on_curve wire_layouts b with
+    match read_message secp_on_curve exec_layouts b with
     | Some (t', vs) =>
       (if ok && (t =? t') && fvals_eqb vs fields then [] else [6]) ++
-      (match write_message wire_layouts t' vs with
+      (match write_message exec_layouts t' vs with
        | Some out => if bytes_eqb out reenc then [] else [7]
        | None => [7]
        end)
     | None => if ok then [6] else []
     end
   | CWrite t fields ok out =>
-    match write_message wire_layouts t fields with
+    match write_message exec_layouts t fields with
     | Some o => if ok && bytes_eqb o out then [] else [8]
     | None => if ok then [8] else []
+    end
+  | CTMsg b ok t fields extra reenc pts =>
+    match read_tmessage (table_oc pts) gen_tlvmsgs b with
+    | Some (t', (vs, cs, rs)) =>
+      (if ok && (t =? t') && fvals_eqb (vs ++ cs) fields then [] else [9]) ++
+      (match lookup_tm gen_tlvmsgs t' with
+       | Some M => if bytes_eqb (tm_extra (table_oc pts) M (skipn 2 b) (vs, cs, rs)) extra then [] else [10]
+       | None => [10]
+       end) ++
+      (match write_tmessage gen_tlvmsgs t' (vs, cs, rs) with
+       | Some out => if bytes_eqb out reenc then [] else [11]
+       | None => [11]
+       end)
+    | None => if ok then [9] else []
     end
   end.
 
